@@ -32,9 +32,9 @@ META["text"] = (
     "separated pairs — alternating projections onto the two bodies, accepted only with a certificate (upper bound |b-a| from feasible points, lower bound from the separating slab along b-a, gap < 1e-7), tolerance 1e-6; "
     "penetrating pairs — the reported depth must equal the extent h_A(n)+h_B(-n) of the Minkowski difference along the reported normal and no direction found by a multi-start projected-gradient search may give a smaller extent (default settings: 1e-5 + 0.5 percent of the depth, the EPA is iteration-limited on curved shapes; converged run: 2e-6); "
     "touching: axis-aligned pairs exactly and nearly touching, in a canonical frame and under a common rigid motion, must report the gap within 2e-6, for mj_geomDistance and for the contacts of mj_collision at margin 0, over |gap| in {0, 1e-12, ..., 1e-5} (KNOWN finding C15-F1 touching-degenerate, restricted to this aligned family with |gap| <= 1e-5: the native GJK/EPA returns garbage, up to the centre distance or a spurious centimetre-deep contact, for a few percent of such configurations); "
-    "swap symmetry: same distance in both orders, witness points exchanged (normal reversed; contact normals of the two orders within 3 degrees at convergence, 8 degrees with default settings). "
+    "swap symmetry: same distance in both orders, witness points exchanged (normal reversed; contact normals of the two orders within 3 degrees at convergence, 15 degrees (30 beyond depth 0.05) with default settings). "
     "The distance oracle runs twice: with mjOption.ccd_iterations raised to 200 (GJK/EPA stop on ccd_tolerance = 1e-6: tolerance 2e-6 on every distance) and with the shipped default of 35 iterations, where the EPA on margin-inflated curved shapes is iteration-limited "
-    "(observed: contact dist off by up to 1e-4 and normal by ~3 degrees at inflated depth 0.06, both gone with 100 iterations) and tolerances scale with the depth (1e-5 + 0.2-0.5 percent). Exactly axis-aligned penetrating pairs (centres on a common world axis, first geom below / above / beside the second, millimetres deep, both geom orders) are part of the distance oracle with these ordinary tolerances: they are NOT in the known class.")
+    "(observed: contact dist off by up to 1e-4 and normal by ~3 degrees at inflated depth 0.06, both gone with 100 iterations) and tolerances scale with the depth (1e-5 + 0.2-0.5 percent). Deep-penetration strata: the centre of one body at a random off-axis interior point of the other (sphere / capsule cores inside ellipsoid and cylinder, so that mjc_ccd's shrink-and-inflate shortcut is left and the full GJK+EPA runs; ellipsoid, cylinder, box pairs among themselves), random orientations, both geom orders, ordinary classes (converged: 2e-6; default: 3 percent beyond depth 0.05, where 1.9 percent and 21 degrees were observed); KNOWN finding C15-F2 deep-core-on-axis: sphere / capsule centre exactly on a principal axis or at the centre of the other geom and inside it (gross: centimetres of penetration reported as 0 or positive, contact dropped). Exactly axis-aligned penetrating pairs (centres on a common world axis, first geom below / above / beside the second, millimetres deep, both geom orders) are part of the distance oracle with these ordinary tolerances: they are NOT in the known class.")
 META["note"] = ("Trusted: Coq kernel + the standard-library real-number axioms listed in trusted_base; hand-written model Model/ConvexSupport.v; correspondence harness (gcc, drivers c15_support.c, c15_gjk.c, c13_prim.c); "
                 "python reference geometry (projections, support functions, optimiser) of the oracle.")
 
@@ -409,6 +409,58 @@ def dist_cases(ctx):
         A0, B0 = Shape(tA, sA, [0.0, 0, 0], EYE), Shape(tB, sB, [0.0, 0, 0], G.quat2mat(qB))
         off = A0.h(d) + B0.h(scl(d, -1.0)) + gap
         cs.append((tA, sA, pA, [1.0, 0, 0, 0], tB, sB, add(pA, scl(d, off)), list(qB)))
+    cs += deep_cases(ctx)
+    return cs
+
+
+def deep_cases(ctx):
+    """DEEP penetration: the centre of the first body lies inside the second one (for a sphere / capsule: its core, the point or
+    segment mjc_ccd shrinks it to, is inside the other geom, so the shallow 'inflate' shortcut is not taken and the full GJK+EPA
+    runs).  Generic stratum: random off-axis interior points, random orientations.  Family stratum 'deep-core-on-axis' (KNOWN
+    finding C15-F2): sphere / capsule centre exactly on a principal axis of, or at the centre of, the other geom."""
+    rng = ctx.rng
+    big = ctx.tier != "quick"
+    cs = []
+    cores = [SPHERE, CAPSULE]
+    others = [ELLIPSOID, CYLINDER, BOX]
+    gen_pairs = [(a, b) for a in cores for b in others if not (a == SPHERE and b in (CYLINDER, BOX)) and not (a == CAPSULE and b == BOX)]
+    gen_pairs += [(ELLIPSOID, ELLIPSOID), (ELLIPSOID, CYLINDER), (CYLINDER, ELLIPSOID), (ELLIPSOID, BOX), (CYLINDER, CYLINDER), (CYLINDER, BOX), (BOX, CYLINDER), (BOX, BOX)]
+
+    def interior(tB, sB, frac):
+        """a point of the geom frame at relative depth: frac = 0 centre ... 1 surface, along a random off-axis direction"""
+        while True:
+            u = unit([rng.gauss(0, 1) for _ in range(3)])
+            if min(abs(x) for x in u) > 0.15:
+                break
+        S = Shape(tB, sB, [0.0, 0, 0], EYE)
+        lo, hi = 0.0, 2.0
+        for _ in range(50):
+            mid = 0.5 * (lo + hi)
+            if S.excess(scl(u, mid)) < 0:
+                lo = mid
+            else:
+                hi = mid
+        return scl(u, lo * frac)
+    reps = 2 if not big else 25
+    for (tA, tB) in gen_pairs:
+        for k in range(reps):
+            sA = [rng.uniform(0.04, 0.12), rng.uniform(0.05, 0.2), rng.uniform(0.04, 0.12)]
+            sB = [rng.uniform(0.15, 0.4), rng.uniform(0.15, 0.4), rng.uniform(0.15, 0.4)]
+            qB, qA = G.rquat(rng), G.rquat(rng)
+            pBw = G.rvec(rng, 0.5)
+            pA = Shape(tB, sB, pBw, G.quat2mat(qB)).to_world(interior(tB, sB, rng.choice([0.2, 0.5, 0.8, rng.uniform(0.05, 0.95)])))
+            cs.append((tA, sA, pA, qA, tB, sB, pBw, qB, None))
+    # the on-axis family
+    for (tA, tB) in [(SPHERE, ELLIPSOID), (CAPSULE, ELLIPSOID), (CAPSULE, CYLINDER)]:
+        for k in range(2 if not big else 12):
+            sA = [rng.choice([0.1, 0.05]), rng.choice([0.1, 0.15]), 0.1]
+            sB = [rng.choice([0.5, 0.25]), rng.choice([0.3, 0.2]), rng.choice([0.2, 0.25])]
+            axis = rng.randrange(3)
+            ext = sB[axis] if tB != CYLINDER else (sB[0] if axis < 2 else sB[1])
+            off = [0.0, 0, 0]
+            off[axis] = ext * rng.choice([0.0, 0.25, 0.5, 0.75, rng.uniform(0, 0.9)]) * rng.choice([1, -1])
+            q = G.rquat(rng) if k % 2 else [1.0, 0, 0, 0]
+            cs.append((tA, sA, matvec(G.quat2mat(q), off), list(q), tB, sB, [0.0, 0, 0], list(q), "deep-core-on-axis"))
     return cs
 
 
@@ -472,7 +524,7 @@ def touching_oracle(ctx, cases, results, results0, stats):
 
 
 def world_line(c, swap):
-    (t1, s1, p1, q1, t2, s2, p2, q2) = c
+    (t1, s1, p1, q1, t2, s2, p2, q2) = c[:8]
     if swap:
         (t1, s1, p1, q1, t2, s2, p2, q2) = (t2, s2, p2, q2, t1, s1, p1, q1)
     # margins 0, gaps 0 except a detection margin large enough to obtain contacts for near pairs; distmax 1
@@ -645,14 +697,16 @@ def run(ctx):
 
 
 def distance_oracle(ctx, c, w1, w2, stats, rng, mode):
-    (t1, s1, p1, q1, t2, s2, p2, q2) = c
+    (t1, s1, p1, q1, t2, s2, p2, q2) = c[:8]
+    family = c[8] if len(c) > 8 else None
     key = "%s-%s" % (NAME[t1], NAME[t2])
     case = {"world": [t1, s1, p1, q1, t2, s2, p2, q2], "ccd_iterations": 200 if mode == "converged" else 35}
     strict = mode == "converged"
     sig = {"site": "mjc_ccd", "pair": "-".join(sorted([NAME[t1], NAME[t2]]))}
 
     def viol(what, exp, obs, cls):
-        ctx.violation("impl_violation", dict(case, what=what), expected=exp, observed=obs, theorem="C15 oracle: " + what, signature=dict(sig, **{"class": cls}))
+        ctx.violation("impl_violation", dict(case, what=what, family=family), expected=exp, observed=obs, theorem="C15 oracle: " + what,
+                      signature=dict(sig, **{"class": family or cls}))
     if w1 is None or w2 is None:
         viol("mj_collision / mj_geomDistance run without error", "results", "ERR", "error")
         return
@@ -661,16 +715,19 @@ def distance_oracle(ctx, c, w1, w2, stats, rng, mode):
     # ---- swap symmetry of mj_geomDistance: within one world (two argument orders) and across the two worlds (roles of the bodies exchanged)
     alld = [w1["gd12"], w1["gd21"], w2["gd12"], w2["gd21"]]
     deep = min(alld) < -0.02
-    symtol = 2e-6 if strict else 5e-3 * abs(min(min(alld), 0.0)) + 1e-5
+    dmax = abs(min(min(alld), 0.0))
+    # default settings (35 iterations): the EPA is iteration-limited, 0.5 percent up to depth 0.05, observed up to 1.9 percent (and 21 degrees) for deeper penetrations
+    relax = 5e-3 if dmax < 0.05 else 3e-2
+    symtol = 2e-6 if strict else relax * dmax + 1e-5
     if max(alld) - min(alld) > symtol:
         viol("mj_geomDistance gives the same distance when the two geoms are swapped", "equal distances (tolerance %g)" % symtol, alld, "swap-distance")
     # witness points exchanged: normal reversed (only when the witness pair is unique enough: compare directions)
-    if gd < 1.0 and abs(gd) > 1e-6:
+    if gd < 1.0 and abs(gd) > 1e-6 and family is None:      # (on-axis family: axisymmetric, the penetration direction is not unique)
         n12 = sub(w1["ft12"][3:], w1["ft12"][:3])
         n21 = sub(w1["ft21"][3:], w1["ft21"][:3])
         if norm(n12) > 1e-9 and norm(n21) > 1e-9:
             cosang = dot(n12, n21) / (norm(n12) * norm(n21))
-            if cosang > -1 + (1e-3 if strict else 1e-2):
+            if cosang > -1 + (1e-3 if strict else (3e-2 if dmax < 0.05 else 0.15)):     # default: tip-to-tip ellipsoids 11 degrees at depth 0.008
                 viol("swapping the geoms reverses the normal (witness points exchanged)", "normals opposite (cos = -1)", {"cos": cosang, "ft12": w1["ft12"], "ft21": w1["ft21"]}, "swap-normal")
     # ---- reference distance
     ref = separated_reference(A, B)
@@ -696,12 +753,13 @@ def distance_oracle(ctx, c, w1, w2, stats, rng, mode):
         depth = -gd
         refd, refdir = penetration_reference(A, B, starts, rng)
         stats["penetrating_checked"] += 1
-        tolp = 2e-6 if strict else 5e-3 * depth + 1e-5          # default mode: iteration-limited EPA (ellipsoid tips: up to 2.9e-5 at depth 0.008)
+        tolp = 2e-6 if strict else relax * depth + 1e-5         # default mode: iteration-limited EPA (ellipsoid tips: up to 2.9e-5 at depth 0.008)
         errp = abs(refd - depth)
         if depth < 0.02:
             stats["max_pen_err_shallow"] = max(stats["max_pen_err_shallow"], errp)
-        else:
+        elif family is None:
             stats["max_pen_err_deep"] = max(stats["max_pen_err_deep"], errp)
+            stats["max_pen_relerr_deep"] = max(stats.get("max_pen_relerr_deep", 0.0), errp / depth)
         if refd < -1e-9:
             # the reference proves the bodies are separated (a direction with negative extent is a separating direction)
             viol("penetration reported for separated bodies", "separated (extent %.3g along %s)" % (refd, refdir), gd, "distance")
@@ -713,12 +771,12 @@ def distance_oracle(ctx, c, w1, w2, stats, rng, mode):
             stats["contacts_checked"] += 1
             cd = w["cons"][0]["dist"]
             epa_depth = w["detect"] - cd            # the contact is found by EPA on the shapes inflated by margin/2 each
-            tolc = 2e-6 if strict else 5e-3 * epa_depth + 1e-5
+            tolc = 2e-6 if strict else (5e-3 if epa_depth < 0.05 else 3e-2) * epa_depth + 1e-5
             stats["max_contact_vs_geomdist"] = max(stats["max_contact_vs_geomdist"], abs(cd - w["gd12"]))
             if abs(cd - w["gd12"]) > tolc:
                 viol("contact dist agrees with mj_geomDistance", w["gd12"], cd, "contact")
     # contact normals of the two worlds (bodies exchanged): both point from the geom of lower type to the other, i.e. same physical direction
-    if len(w1["cons"]) == 1 and len(w2["cons"]) == 1 and not (t1 == BOX and t2 == BOX) and abs(w1["cons"][0]["dist"]) > 1e-6:
+    if len(w1["cons"]) == 1 and len(w2["cons"]) == 1 and not (t1 == BOX and t2 == BOX) and abs(w1["cons"][0]["dist"]) > 1e-6 and family is None:
         n1, n2 = w1["cons"][0]["normal"], w2["cons"][0]["normal"]
         # world 1: geom ids (0: body A, 1: body B); world 2: (0: body B, 1: body A).  Express both as "from A to B".
         g1 = w1["cons"][0]["g"]
@@ -729,5 +787,5 @@ def distance_oracle(ctx, c, w1, w2, stats, rng, mode):
         stats["max_swap_angle_deg"] = max(stats["max_swap_angle_deg"], ang)
         # the normal is the normalised difference of two witness points that are only accurate to ~sqrt(tolerance x curvature radius):
         # a few degrees at small depth are inherent to a tolerance-terminated method
-        if ang > (3.0 if strict else 8.0):
+        if ang > (3.0 if strict else (15.0 if dmax < 0.05 else 30.0)):
             viol("exchanging the two bodies reverses the contact normal", "same physical direction", {"normal_world1": n1, "geoms1": g1, "normal_world2": n2, "geoms2": g2}, "swap-normal")
